@@ -59,12 +59,35 @@ def run_one(m: dict, tier: str) -> tuple[dict, str, str]:
             return m, "HANG(timeout)", ""
         lines = [l for l in r.stdout.splitlines() if l.startswith("violation:")]
         if r.returncode == 1:
+            if os.environ.get("VERIF_SAVE_REGRESS") == "1":
+                _save_regress(m, tmp / "out" / "replays" / m["prop"])
             return m, "caught", "; ".join(l[11:140] for l in lines[:3])
         if r.returncode == 0:
             return m, "MISSED", ""
         return m, f"ERROR rc={r.returncode}", (r.stderr or "")[-600:]
     finally:
         shutil.rmtree(tmp, ignore_errors=True)
+
+
+def _save_regress(m: dict, replays: Path) -> None:
+    """Keep up to two witnesses of a caught change as committed regression cases - but only witnesses that are quiet on
+    the unchanged tree (checked by replaying them against /repo)."""
+    dst = ROOT / "regress" / m["prop"]
+    dst.mkdir(parents=True, exist_ok=True)
+    tag = m["name"].replace("/", "-")
+    kept = 0
+    for f in sorted(replays.glob("*.json"), key=lambda x: x.stat().st_size):
+        if kept >= 2 or f.stat().st_size > 20000:
+            break
+        w = json.loads(f.read_text())
+        if str(w.get("message", "")).startswith("regression of fixed finding") or str(w.get("message", "")).startswith("regression witness"):
+            continue
+        env = {k: v for k, v in os.environ.items() if k not in ("VERIF_REPO_SRC", "VERIF_OUT")}
+        r = subprocess.run([str(ROOT / "bin" / "check"), m["prop"], "quick", "--replay", str(f)], capture_output=True, text=True, env=env)
+        if r.returncode != 0:
+            continue
+        (dst / f"{tag}-{kept + 1}.json").write_text(json.dumps({"property": m["prop"], "origin": m["name"], "bucket": w["bucket"], "witness": w["witness"]}, indent=1, sort_keys=True))
+        kept += 1
 
 
 def main() -> None:
